@@ -638,6 +638,10 @@ func (sc *StagedConfig) render(c *Ctx, k, actSet int) *Skeleton {
 		sk.TypeErs = append(sk.TypeErs, err.Error())
 	}}
 	sk.Pkg, _ = conf.Check("main", sk.Fset, []*ast.File{f}, sk.Info)
+	if sk.Info.Instances == nil {
+		sk.Info.Instances = map[*ast.Ident]types.Instance{}
+	}
+	normaliseSkeleton(c, sk) // helpers the templates may have gained are inlined back (inline.go)
 	return sk
 }
 
@@ -695,6 +699,12 @@ func (sk *Skeleton) FuncDecl(recv, name string) *ast.FuncDecl {
 
 func (sk *Skeleton) pos(p token.Pos) string {
 	if sk.Fset == nil || !p.IsValid() {
+		return "skeleton " + sk.V.Name
+	}
+	for k := 0; p >= virtualBase && skelNorm != nil && k < 8; k++ {
+		p = skelNorm.virtualToOrig(p)
+	}
+	if !p.IsValid() {
 		return "skeleton " + sk.V.Name
 	}
 	pp := sk.Fset.Position(p)
